@@ -389,8 +389,16 @@ def check_eval(pid, tier, seed):
     info = play_traces(chk, wvbin, wd, "eval", games, plies)
     validate_stream(chk, os.path.join(wd, "play.eval.ndjson"), pid, NPROC if quick else NPROC * 3, header="EvalConsts")
     n, nt, samples = eval_samples(os.path.join(wd, "play.eval.ndjson"), pid == "C05")
+    # checkmates and stalemates of many shapes (pawn checks, several attackers, stalemates with pawns next to the king ...): one
+    # "game" of one ply per position, so each is evaluated (with its mirror image) exactly like a position met in play
+    tfens = os.path.join(CORPUS, "terminals.fen")
+    nterm = sum(1 for l in open(tfens) if l.strip() and not l.startswith("#"))
+    wv(wvbin, ["play", "--seed", chk.seed, "--games", nterm, "--plies", 1, "--emit", "eval", "--corpus", tfens, "--out-prefix", os.path.join(wd, "term")])
+    validate_stream(chk, os.path.join(wd, "term.eval.ndjson"), pid, NPROC, header="EvalConsts")
+    n2, nt2, _ = eval_samples(os.path.join(wd, "term.eval.ndjson"), pid == "C05")
+    n, nt = n + n2, nt + nt2
     chk.coverage.update({"evaluations": n, "distinct_nontrivial": nt, "samples": samples,
-                         "rule": "positions visited by seeded random play, each evaluated from both perspectives at plies 0,1,2,9,10,11,64 together with its colour-mirrored twin (mirror verified against Chess!Mirror by TLC); non-trivial = distinct positions that differ from their own mirror image"})
+                         "rule": "positions visited by seeded random play, each evaluated from both perspectives at plies 0,1,2,9,10,11,64 together with its colour-mirrored twin (mirror verified against Chess!Mirror by TLC); non-trivial = distinct positions that differ from their own mirror image; plus the mined terminal positions of corpus/terminals.fen (80 shapes of checkmate and stalemate)"})
     if pid == "C13":
         tot = family_replay(chk, wvbin, wd, pid, family_plan(pid, quick, seed))
         chk.coverage["evaluations"] += tot.get("positions", 0)
@@ -476,9 +484,20 @@ def check_hash(pid, tier, seed):
     stride = NPROC if quick else NPROC
     outs = textgen(chk, wd, "hash", os.path.join(wd, "play.move.ndjson"), stride, range(stride), "v")
     tot, samples = replay_text(chk, wvbin, wd, "hashvar", outs, pid, "v", ("p", "q"), extra=["--seed", seed])
+    # (c) inside a search: the key under which each node is entered (hook event) is a function of the position and vice versa,
+    # however the node is reached - roots with castling rights and en-passant targets so that right-losing moves occur
+    import random
+    import searchchecks
+    rnd = random.Random(seed * 131 + 8)
+    roots = [f for f in searchchecks.corpus_fens() if f.split()[2] != "-" or f.split()[3] != "-"]
+    roots += [l.split(" | ")[0] for l in open(os.path.join(CORPUS, "history_roots.txt")) if l.strip() and not l.startswith("#")][:(4 if quick else 24)]
+    rnd.shuffle(roots)
+    wbs = [{"id": 900000 + i, "steps": [{"fen": f, "depth": 3 if i % 2 else 2, "seed": rnd.randrange(1 << 30), "workers": 1 + i % 2, "tables": 2, "buckets": 256, "tag": "whitebox"}]}
+           for i, f in enumerate(roots[:(8 if quick else 40)])]
+    searchchecks.whitebox(chk, wvbin, wd, pid, wbs)
     chk.coverage.update({"evaluations": len(pairs) + tot.get("pairs", 0),
                          "distinct_nontrivial": kinds.get("same-identity", 0) + kinds.get("same-hash", 0) + sum(v for k, v in tot.get("by_kind", {}).items() if "(free)" not in k),
-                         "rule": "pairs of positions: (a) among positions met in seeded random play and transposition probes, every pair with equal identity or equal hash plus all neighbours, judged by TLC against SameForHash/PosKey; (b) TLC-generated single-component variants (right removed/added, en-passant target set/cleared, side flipped, clocks changed, piece moved/replaced) with the required relation, under three hasher seeds; non-trivial = pairs on which a clause of C08 is actually binding (not 'free')",
+                         "rule": "pairs of positions: (a) among positions met in seeded random play and transposition probes, every pair with equal identity or equal hash plus all neighbours, judged by TLC against SameForHash/PosKey; (b) TLC-generated single-component variants (right removed/added, en-passant target set/cleared, side flipped, clocks changed, piece moved/replaced) with the required relation, under three hasher seeds; (c) white-box searches: key <-> position one-to-one over every node entered (SearchWB.tla); non-trivial = pairs on which a clause of C08 is actually binding (not 'free')",
                          "samples": samples[:3], "pair_kinds_from_play": kinds, "variant_kinds": tot.get("by_kind", {})})
     chk.assumptions += ["a 64-bit chance collision would be reported as a violation with the pair (probability < 1e-7 per run)"]
     chk.finish()
@@ -514,9 +533,29 @@ def check_san(pid, tier, seed):
     stride = NPROC * (40 if quick else 4)
     outs = textgen(chk, wd, "amb", None, stride, [(seed * 5 + i) % stride for i in range(NPROC)], "a")
     tot2, samples2 = replay_text(chk, wvbin, wd, "san", outs, pid, "a", ("fen", "text", "mv"))
-    chk.coverage.update({"evaluations": tot.get("spellings", 0) + tot2.get("spellings", 0) + tot.get("negatives", 0) + tot2.get("negatives", 0),
+    # the coordinate text where it is consumed: `position fen F moves <text>` for every legal move of selected positions, the
+    # engine's resulting position read back and compared with Apply by UciTrace.tla ("that text selects the same move again")
+    import ucichecks
+    cli = build_cli()
+    pool = ucichecks.Pool(wvbin, wd, seed)
+    sessions = ucichecks.every_move_sessions(pool, wvbin, wd, seed, quick)
+    traces = ucichecks.run_sessions(cli, wd, "lan", sessions)
+    res = tlc_many([dict(module="UciTrace", trace=t, xmx="3g", timeout=3000) for t in traces])
+    chk.add_tlc(res)
+    nmoves = sum(len(c) - 1 for _, _, _, c in sessions)
+    for r in res:
+        for d in r["diags"]:
+            w = d.get("what", {})
+            if d.get("prop") == "TOOL":
+                tool_error("driver/specification mismatch: %s" % json.dumps(d))
+            if w.get("kind") == "engine's current position differs from the one the rules define":
+                chk.violation("|".join([pid, "lan-through-uci", str(w.get("expected"))]),
+                              "coordinate text of a legal move fed back through `position ... moves` selects another move (or none): %s" % json.dumps({a: b for a, b in w.items() if a != "kind"}, sort_keys=True),
+                              {"module": "UciTrace", "trace": r["trace"], "diag": d})
+    chk.coverage["lan_through_uci"] = {"sessions": len(sessions), "moves": nmoves}
+    chk.coverage.update({"evaluations": tot.get("spellings", 0) + tot2.get("spellings", 0) + tot.get("negatives", 0) + tot2.get("negatives", 0) + nmoves,
                          "distinct_nontrivial": tot.get("moves_with_more_than_two_spellings", 0) + tot2.get("moves_with_more_than_two_spellings", 0),
-                         "rule": "every admissible SAN spelling (all disambiguation levels, x, =Q/Q, +/#, O-O/O-O-O) of every legal move, generated by ChessText!SanSpellings for positions of seeded play and for the TLC-enumerated ambiguity family (three like pieces reaching one square), parsed by the implementation and matched against its legal moves; full-square spellings of pseudo-legal-but-illegal moves as negatives; LAN text compared with ChessText!Lan and resolved again; non-trivial = moves with more than two admissible spellings",
+                         "rule": "every admissible SAN spelling (all disambiguation levels, x, =Q/Q, +/#, O-O/O-O-O) of every legal move, generated by ChessText!SanSpellings for positions of seeded play and for the TLC-enumerated ambiguity family (three like pieces reaching one square), parsed by the implementation and matched against its legal moves; full-square spellings of pseudo-legal-but-illegal moves as negatives; LAN text compared with ChessText!Lan and resolved again, and fed through the UCI front end's `position ... moves` for every legal move of selected positions; non-trivial = moves with more than two admissible spellings",
                          "samples": (samples + samples2)[:3], "from_play": tot, "from_ambiguity_family": tot2})
     chk.finish()
 
